@@ -672,6 +672,10 @@ func (env *SpecEnv) call(x *SExpr) SV {
 		}
 		g.DeclFun(fn, sorts, sortStr)
 		return SV{t: fmt.Sprintf("(%s %s)", fn, strings.Join(as, " ")), sort: sortStr, gt: types.Typ[types.String]}
+	case "u64": // machine wrap of a mathematical value to uint64 (what the code's + and - on uint64 compute)
+		return SV{t: fmt.Sprintf("(wrap_u64 %s)", argv(0).t), sort: "Int"}
+	case "i64":
+		return SV{t: fmt.Sprintf("(wrap_i64 %s)", argv(0).t), sort: "Int"}
 	case "same": // structural identity (for float fields: bit-identical, unlike Go's ==)
 		return SV{t: fmt.Sprintf("(= %s %s)", argv(0).t, argv(1).t), sort: "Bool"}
 	case "isnil":
@@ -758,6 +762,9 @@ func (env *SpecEnv) call(x *SExpr) SV {
 		}
 	}
 	// uninterpreted helper declared by an external rule (e.g. key functions, ghost predicates)
+	if x.S == "be64dec" || x.S == "be64enc" {
+		declBE(g, bytesSort(g))
+	}
 	if sig, ok := env.e.r.v.ghostFuns[x.S]; ok {
 		var as []string
 		for i := range x.Args {
